@@ -83,6 +83,24 @@ def bit_concat(*partials):
     return _p2(getter, setter, bitsize, signed)
 
 
+def check_field_range(value, bits, signed):
+    """Check that value fits a field of the given amount of bits exactly.
+
+    A plain token field accepts signed and unsigned values alike, since the
+    token does not know how the instruction reads its bits. Use this check
+    when the reading is known: signed is True for a two's complement field
+    and False for an unsigned field.
+    """
+    if signed:
+        lower, upper = -(1 << (bits - 1)), (1 << (bits - 1)) - 1
+    else:
+        lower, upper = 0, (1 << bits) - 1
+    if not lower <= value <= upper:
+        raise ValueError(
+            f"Cannot encode {value} in {bits} bits [{lower},{upper}]"
+        )
+
+
 class TokenMeta(type):
     def __init__(cls, name, bases, attrs):
         super().__init__(name, bases, attrs)
@@ -215,10 +233,18 @@ class TokenSequence:
     def __getitem__(self, item):
         return self.tokens.__getitem__(item)
 
-    def set_field(self, field, value):
-        """Set a given field in one of the tokens"""
+    def set_field(self, field, value, signed=None):
+        """Set a given field in one of the tokens
+
+        Pass signed (True or False) when the instruction reads the field as
+        a signed respectively unsigned number, to refuse values outside of
+        exactly that range.
+        """
         for token in self.tokens:
             if hasattr(token, field):
+                if signed is not None:
+                    bits = getattr(type(token), field)._bitsize
+                    check_field_range(value, bits, signed)
                 setattr(token, field, value)
                 return
         raise KeyError(field)
